@@ -331,6 +331,17 @@ class Frame(object):
                 r = Arr2([self.cols[l].copy() for l in self.labels], self.n)
                 if getattr(self, 'np_dtype', None):
                     r._dtype = values.DType(self.np_dtype)
+                want = k.get('dtype', a[0] if a else None)
+                if want is not None:
+                    # an explicit target dtype: pandas casts (booleans, digit strings, nullable integers all become floats)
+                    # or raises; the executor follows the cast that succeeds, the result HAS the requested dtype
+                    name_ = getattr(want, 'kind', None) or getattr(want, '__name__', None) or str(want)
+                    if 'float' in name_:
+                        r._dtype = values.DType('float')
+                    elif 'int' in name_:
+                        r._dtype = values.DType('int')
+                    else:
+                        raise Unsupported('DataFrame.to_numpy(dtype=%r)' % (want,))
                 return r
             return to_numpy
         if name == 'values':
